@@ -202,9 +202,18 @@ static enum DeviceState sto_append(struct Storage* s, const struct VideoFrame* f
 {
     struct MockSto* m = (struct MockSto*)s;
     struct mock_sto_cfg* g = &mock_sto[m->idx];
+    /* a zero-copy consumer: the packet must not change while the device is working on it (C02) */
+    uint32_t h0 = 2166136261u;
+    for (size_t j = 0; j < *nbytes; ++j) { h0 ^= ((const unsigned char*)frames)[j]; h0 *= 16777619u; }
     for (int i = 0; i < g->pace; ++i)
         vs_point("dev:sto.pace");
     vs_point("dev:sto.append");
+    {
+        uint32_t h1 = 2166136261u;
+        for (size_t j = 0; j < *nbytes; ++j) { h1 ^= ((const unsigned char*)frames)[j]; h1 *= 16777619u; }
+        if (h1 != h0)
+            printf("V s%d sink.in region-changed-while-mapped reader=storage-append nbytes=%zu\n", m->idx, *nbytes);
+    }
     if (g->fail_at >= 0 && g->fail_at == m->nappend) {
         g->fail_at = -1;
         printf("D sto%d#%d append FAIL k=%ld nbytes=%zu\n", m->idx, m->serial, m->nappend, *nbytes);
